@@ -34,7 +34,7 @@ def sat_int(x):
 
 
 class Node:
-    __slots__ = ('kind', 'key', 'kconst', 'ref', 'bits', 'ival', 'sval', 'kids', 'parent', 'uid')
+    __slots__ = ('kind', 'key', 'kconst', 'ref', 'bits', 'ival', 'sval', 'kids', 'parent', 'uid', 'reft')
     _uid = 0
 
     def __init__(self, kind, key=None, kconst=False, ref=False, bits=0, ival=0, sval=None, kids=None):
@@ -47,6 +47,7 @@ class Node:
         self.sval = sval
         self.kids = kids if kids is not None else ([] if kind in 'ao' else None)
         self.parent = None
+        self.reft = None
         Node._uid += 1
         self.uid = Node._uid
 
